@@ -10,4 +10,4 @@ RULE = ("per item and variant: every reader (TL1 bare/boxed, TL2, JSON) on mutat
 
 def run(ctx):
     codec.simple_check(ctx, "c08", RULE, [("types", "types", 150), ("reads", "reads", 100000), ("allocation samples", "alloc_samples", 5000),
-                                          ("transcoder inputs", "transcoder_inputs", 1000)], 16, 120, count_keys=("reads", "transcoder_inputs"), mem_gb=4, random_quick=3, random_thorough=30)
+                                          ("transcoder inputs", "transcoder_inputs", 1000)], 16, 120, count_keys=("reads", "transcoder_inputs"), mem_gb=4, random_quick=3, random_thorough=30, oom_is_violation=True)
